@@ -205,6 +205,32 @@ class TRec(Sort):
         return self.fields[self.fidx(f)][1]
 
 
+class TUnionRec(TRec):
+    "tagged union of value records (a python variable that holds an instance of one of several dataclasses)"
+
+    def __init__(self, nm, members):
+        self.members = dict(members)  # class qn -> TRec
+        fields = [("tag", Int)] + [("m_" + qn.split(".")[-1], r) for qn, r in members.items()]
+        TRec.__init__(self, "U_" + nm, fields)
+
+    def member_field(self, qn):
+        return "m_" + qn.split(".")[-1]
+
+
+class TKDict(TRec):
+    """a python dict with string keys drawn from a known finite universe (plus at most 'some other key'):
+    fields p_<k>: Bool (present), v_<k>: value; other: Bool; other_key: Str"""
+
+    def __init__(self, nm, keys):
+        self.keys = dict(keys)  # key -> value Sort
+        fields = []
+        for k, so in keys.items():
+            fields.append(("p_" + k, Bool))
+            fields.append(("v_" + k, so))
+        fields += [("other", Bool), ("other_key", Str)]
+        TRec.__init__(self, "KD_" + nm, fields)
+
+
 class TDict(Sort):
     """dict as (n, keys: Int->K, idx: K->Int, val: K->V).
     dom(k) <=> 0 <= idx[k] < n and keys[idx[k]] == k ;  WF: forall i in [0,n): idx[keys[i]] == i."""
